@@ -15,7 +15,7 @@ from checks import common
 
 PID = "C18"
 MENU = ["holidays_fr", "holidays_us", "country_from_coords", "tz_from_coords", "ctx_from_coords", "easter", "plain_shared", "plain_clone",
-        "normalize", "clone_ctx_switch", "clone_locale_switch", "interleave_exprs", "shared_walk", "coords_two_zones"]
+        "normalize", "clone_ctx_switch", "clone_locale_switch", "interleave_exprs", "shared_walk", "coords_two_zones", "calendar_rebuild"]
 
 
 def run_skeleton(skel, jitter):
